@@ -400,7 +400,17 @@ func genC04Line(t *rapid.T, c *c04Case, option bool) c04Line {
 		default:
 			name := fmt.Sprintf("v%d", len(c.Vars))
 			var e *Expr
-			switch rapid.IntRange(0, 7).Draw(t, "exprkind") {
+			switch rapid.IntRange(0, 8).Draw(t, "exprkind") {
+			case 8:
+				// string literals written in the script, with escaped quotes at the start, inside and at the end: the value is the
+				// text between the outer quotes, as written
+				lit := func() *Expr {
+					return str(rapid.SampledFrom([]string{"abc", `a\"`, `\"b`, `x\"y\"`, `She said \"run\"`, "", "two words", `\"`, `\"\"`, `it's`, `a\\`}).Draw(t, "strlit"))
+				}
+				e = lit()
+				if rapid.IntRange(0, 2).Draw(t, "concat") == 0 {
+					e = bin("+", e, lit())
+				}
 			case 6:
 				e = neg(num(rapid.SampledFrom([]string{"5", "0.25", "12", "0"}).Draw(t, "lit")))
 			case 7:
